@@ -8,6 +8,9 @@ Binding: each history runs in a fresh process (history replay), followed by a fi
 type of the family (two distinct types printing the same name, a recursive type with a
 pointer-receiver marshaler field, a 60-field nested type); the probe results must equal those of a
 process with an empty history; a crash of the process is a violation.
+Types with equal 32-bit type hashes (pairs of reflect.StructOf types found by an FNV-1 collision search), their slices and
+pointers, first used in both orders and after Pretouch, must each be served as if alone (spec/Cache.tla ServedOwn; the
+variant that compares hashes only violates it under TLC).
 """
 import json
 import os
@@ -22,6 +25,16 @@ def check(ctx):
     r = vf.tlc(ctx, "MCSession", "mc/Session.cfg", name="session-mc", defines={"MAXHIST": 3, "MAPBACK": "ByType", "FILL": "TRUE"}, timeout=1800)
     if not r["ok"]:
         raise vf.Inconclusive("Session model violates %s" % r["violated"])
+    # the program cache must serve a lookup with the entry of that very type, also when another type has the same 32-bit hash
+    # (spec/Cache.tla ServedOwn); the variant that compares hashes only must violate it
+    ch = vf.tlc(ctx, "MCCache", "mc/Cache.cfg", name="cache-samehash", timeout=1800,
+                defines={"PROCS": "{1,2}", "TYPES": "{1,9}", "WANT": "<<<<1,9>>,<<9,1>>>>", "MUT": "{}", "INITCAP": 2})
+    if not ch["ok"]:
+        raise vf.Inconclusive("Cache model violates %s" % ch["violated"])
+    chm = vf.tlc(ctx, "MCCache", "mc/Cache.cfg", name="cache-hashonly", timeout=1800,
+                 defines={"PROCS": "{1,2}", "TYPES": "{1,9}", "WANT": "<<<<1,9>>,<<9,1>>>>", "MUT": '{"HashOnly"}', "INITCAP": 2})
+    if chm["violated"] != "ServedOwn":
+        raise vf.Inconclusive("the hash-only variant of Cache does not violate ServedOwn")
     g = vf.tlc(ctx, "MCSession", "mc/Session_gen.cfg", name="session-gen", dump="states",
                defines={"MAXHIST": mh, "MAPBACK": "ByType", "FILL": "TRUE"}, timeout=1800)
     sfile = os.path.join(ctx.work, "sess.json")
@@ -56,7 +69,7 @@ def check(ctx):
                 "recursion depths, fill = 2200 unrelated types) up to the bound; a seeded stride sample of all histories is replayed, one "
                 "fresh process each; every history has at least one call, so all are non-trivial",
         "samples": samples[:5],
-        "replay": [{k: s[k] for k in ("env", "histories", "evals", "bad_by_sig", "wall_s")} for s in sums],
+        "replay": [{k: s.get(k) for k in ("env", "histories", "evals", "colliding_pairs", "bad_by_sig", "wall_s")} for s in sums],
         "model_check": [{"cfg": x["name"], "distinct": x["distinct"], "generated": x["generated"], "wall_s": x["wall_s"]} for x in (r, g)],
     }
     return vf.finish(ctx, "model_checking", cov, assumptions=[
